@@ -260,8 +260,14 @@ func judgeC04(sc *Scope, rings [][]ref.P, acc *Acc) []Problem {
 }
 
 func scopesC04(thorough bool) []Scope {
-	scs := scopesValid(thorough)
-	// the multi-level scope does the heavy lifting for the coverage clause; keep both keep modes
+	// the exact clipping arithmetic is int64 on 8x scaled units: real-grid blocks are left to C01/C02/C05/C18
+	var scs []Scope
+	for _, sc := range scopesValid(thorough) {
+		if sc.GS.Kind == "real" {
+			continue // pixel sizes of 1e8 fixed-point units overflow the int64 clipping arithmetic
+		}
+		scs = append(scs, sc)
+	}
 	return scs
 }
 
